@@ -53,11 +53,23 @@ fn decode(n: Node) -> Ev {
         Node::List(v) => {
             let mut tagged = None;
             let mut reply_to = vec![];
+            let mut regions = vec![];
             for x in v {
                 match x {
                     Node::Tagged { sender, seq, body, .. } => tagged = Some((sender, seq, body)),
                     Node::Tx(t) => reply_to.push(t),
+                    Node::Shm(r) => regions.push(r),
                     _ => {},
+                }
+            }
+            if let Some((sender, seq, _)) = &tagged {
+                for r in &regions {
+                    if &r[..] != &payload::stream(1000 * *sender as u64 + *seq as u64 + 9, 3000 + *seq as usize)[..] {
+                        return Ev::Corrupt(format!("message ({},{}) arrived with a shared-memory region that is not its own ({} bytes)", sender, seq, r.len()));
+                    }
+                }
+                if regions.len() != 1 {
+                    return Ev::Corrupt(format!("message ({},{}) arrived with {} regions instead of its one", sender, seq, regions.len()));
                 }
             }
             // answer through the sender that arrived *with this message*: the parent checks that
@@ -93,7 +105,9 @@ fn message(sender: u32, seq: u32, packets: u8, attach: bool, probe: Option<&IpcS
     let body = payload::make(0, sender, seq, body_len(packets), (sender * 100 + seq) as u64 + 1);
     let t = Node::Tagged { chan: 0, sender, seq, body };
     if attach {
-        Node::List(vec![t, Node::Tx(probe.unwrap().clone()), Node::Shm(IpcSharedMemory::from_bytes(&payload::stream(9, 3000)))])
+        // region contents are specific to (sender, seq): a region that arrives with another
+        // message's content was mis-assigned
+        Node::List(vec![t, Node::Tx(probe.unwrap().clone()), Node::Shm(IpcSharedMemory::from_bytes(&payload::stream(1000 * sender as u64 + seq as u64 + 9, 3000 + seq as usize)))])
     } else {
         t
     }
